@@ -313,13 +313,15 @@ Proof.
     intros st s' st' Hst Hv. simpl in Hv. rewrite Hst in Hv. simpl in Hv.
     destruct (oloc_eqb l search) eqn:El.
     + right. eapply (frame_leaf_hit search st (AAnnAssign i l t a v)); try eassumption; try reflexivity.
-      intros; discriminate.
+      * intros; discriminate.
+      * simpl. rewrite El. reflexivity.
     + inversion Hv; subst. left. simpl. rewrite El. repeat split; [assumption | apply smd_refl].
   - (* Assign *)
     intros st s' st' Hst Hv. simpl in Hv. rewrite Hst in Hv. simpl in Hv.
     destruct (oloc_eqb l search) eqn:El.
     + right. eapply (frame_leaf_hit search st (AAssign i l ts v)); try eassumption; try reflexivity.
-      intros; discriminate.
+      * intros; discriminate.
+      * simpl. rewrite El. reflexivity.
     + inversion Hv; subst. left. simpl. rewrite El. repeat split; [assumption | apply smd_refl].
   - (* Expr *)
     intros st s' st' Hst Hv. simpl in Hv. rewrite andb_false_r in Hv.
